@@ -500,7 +500,8 @@ AtomPred(a) == <<a[1], Len(a[2])>>
 AtomsOver(S) == UNION {{<<pr[1], tp>> : tp \in ArgTuples(pr[2])} : pr \in S}
 IsPrivHead(rule, priv) == rule.head.k # "falsity" /\ <<rule.head.a.p, Len(rule.head.a.args)>> \in priv
 AndSeq3(vals) == IF 0 \in vals THEN 0 ELSE IF 1 \in vals THEN 1 ELSE 2
-PhValues(sort) == IF sort = "i" THEN {CInt(n) : n \in P.lo..P.hi} ELSE BaseValues
+PhValues(sort) == IF sort = "i" THEN {CInt(n) : n \in P.lo..P.hi}
+                  ELSE IF sort = "s" THEN {v \in BaseValues : IsSym(v)} ELSE BaseValues
 RECURSIVE PhAssignments(_)
 PhAssignments(phs) ==   \* set of sequences of values, one per placeholder
   IF phs = <<>> THEN {<<>>} ELSE {<<v>> \o rest : v \in PhValues(Head(phs).s), rest \in PhAssignments(Tail(phs))}
